@@ -744,6 +744,69 @@ pub fn c20(seed: u64, budget: u64) -> FOut {
     out
 }
 
+/// identities of very different encoded sizes (host names): whatever a real instance emits must be accepted by
+/// the real peer it is addressed to - a long-named member feeding / gossiping many short-named ones and vice versa
+pub fn hid_exchange(seed: u64, out: &mut FOut, sig_prefix: &str) {
+    fn one<C: Codec<HId> + Clone>(codec: C, cname: &str, g: &mut G, out: &mut FOut, sig_prefix: &str)
+    where
+        C::Error: std::error::Error + Send + std::fmt::Debug,
+    {
+        use foca::{AccumulatingRuntime, Config, Foca, NoCustomBroadcast};
+        for (me_len, peer_len, other_len, k) in [(40usize, 36usize, 1usize, 6usize), (40, 36, 2, 12), (48, 3, 1, 25), (2, 44, 1, 9), (3, 3, 30, 7), (60, 60, 1, 40)] {
+            let name = |n: usize, tag: char, i: usize| -> String {
+                let mut s: String = std::iter::repeat(tag).take(n.saturating_sub(1)).collect();
+                s.push_str(&i.to_string());
+                s
+            };
+            let me = HId { host: name(me_len, 'm', 0), port: 1 };
+            let peer = HId { host: name(peer_len, 'p', 0), port: 2 };
+            let mut a: Foca<HId, C, crate::vid::VRng, NoCustomBroadcast> = Foca::new(me.clone(), Config::simple(), crate::vid::VRng::new(g.next()), codec.clone());
+            let mut rt = AccumulatingRuntime::new();
+            let others: Vec<Member<HId>> = (0..k).map(|i| Member::alive(HId { host: name(other_len, 'o', i + 1), port: 10 + i as u16 })).collect();
+            let _ = a.apply_many(others.clone().into_iter(), true, &mut rt);
+            while rt.to_send().is_some() {}
+            // the peer announces itself, pings, and the instance gossips
+            let mut c2 = codec.clone();
+            let mut outgoing: Vec<(HId, Vec<u8>)> = vec![];
+            for m in [Message::Announce, Message::Ping(3)] {
+                let mut d = vec![];
+                c2.encode_header(&Header { src: peer.clone(), src_incarnation: 0, dst: me.clone(), message: m.clone() }, &mut d).unwrap();
+                if !matches!(m, Message::Announce) {
+                    d.extend([0u8, 0]);
+                }
+                let r = catch_unwind(AssertUnwindSafe(|| a.handle_data(&d, &mut rt)));
+                if !matches!(r, Ok(Ok(()))) {
+                    out.hit(&format!("{sig_prefix}:peer-rejects"), J::s(format!("codec {cname}: {m:?} from {peer:?} to {me:?}: {r:?}")));
+                }
+                while let Some((dst, data)) = rt.to_send() {
+                    outgoing.push((dst, data.to_vec()));
+                }
+            }
+            let _ = a.gossip(&mut rt);
+            while let Some((dst, data)) = rt.to_send() {
+                outgoing.push((dst, data.to_vec()));
+            }
+            out.runs += 1;
+            out.distinct.insert(hash_of(&(cname.to_string(), "hid-exchange", me_len, peer_len, other_len, k)));
+            for (dst, data) in outgoing {
+                // deliver to a real receiver whose identity is the destination
+                let mut b: Foca<HId, C, crate::vid::VRng, NoCustomBroadcast> = Foca::new(dst.clone(), Config::simple(), crate::vid::VRng::new(g.next()), codec.clone());
+                let mut rtb = AccumulatingRuntime::new();
+                let r = catch_unwind(AssertUnwindSafe(|| b.handle_data(&data, &mut rtb)));
+                if !matches!(r, Ok(Ok(()))) {
+                    out.hit(
+                        &format!("{sig_prefix}:peer-rejects"),
+                        J::s(format!("codec {cname}: a datagram of {} bytes from {me:?} (knowing {k} members with {other_len}-byte names) is refused by its addressee {dst:?}: {r:?}", data.len())),
+                    );
+                }
+            }
+        }
+    }
+    let mut g = G::new(seed ^ 0x41D);
+    one(PostcardCodec, "postcard", &mut g, out, sig_prefix);
+    one(BincodeCodec(bincode::config::standard()), "bincode", &mut g, out, sig_prefix);
+}
+
 /// C07's quantifier covers serde codecs too: the feed sweep alone, merged into C07's falsifier output
 pub fn c07_serde(seed: u64, rounds: u64, out: &mut FOut) {
     let mut g = G::new(seed ^ 0xC07_5E);
@@ -753,6 +816,7 @@ pub fn c07_serde(seed: u64, rounds: u64, out: &mut FOut) {
         feed_sweep(BincodeCodec(bincode::config::standard()), "bincode", &mut g, &mut sub, &mut cases);
         feed_sweep(PostcardCodec, "postcard", &mut g, &mut sub, &mut cases);
     }
+    hid_exchange(seed, out, "C07:serde");
     for h in sub.hits {
         if h.signature.contains("panicked") {
             continue; // a panic is C06 / C20 territory: no malformed datagram was emitted
